@@ -957,6 +957,13 @@ add("C10", "pseudo-column exclusion applied regardless of the dialect setting", 
 add("C01", "generator stops consulting a dialect-overridden setting", G,
     "        if not self.LOCKING_READS_SUPPORTED:\n            self.unsupported(\"Locking reads using 'FOR UPDATE/SHARE' are not supported\")\n            return \"\"\n", "", "C01.d")
 
+add("C10", "default db normalised without the table mark", "sqlglot/optimizer/qualify_tables.py",
+    "        db = exp.parse_identifier(db, dialect=dialect)\n        db.meta[\"is_table\"] = True\n        db = normalize_identifiers(db, dialect=dialect)\n",
+    "        db = normalize_identifiers(exp.parse_identifier(db, dialect=dialect), dialect=dialect)\n", "C10.g")
+add("C10", "default catalog marked only after it was normalised", "sqlglot/optimizer/qualify_tables.py",
+    "        catalog.meta[\"is_table\"] = True\n        catalog = normalize_identifiers(catalog, dialect=dialect)\n",
+    "        catalog = normalize_identifiers(catalog, dialect=dialect)\n        catalog.meta[\"is_table\"] = True\n", "C10.g")
+
 add("C19", "SingleStore's generator module is imported before the MySQL dialect exists", "sqlglot/dialects/singlestore.py",
     "from sqlglot.dialects.mysql import MySQL\nfrom sqlglot.generators.singlestore import SingleStoreGenerator\n",
     "from sqlglot.generators.singlestore import SingleStoreGenerator\nfrom sqlglot.dialects.mysql import MySQL\n", "C19.i")
